@@ -106,6 +106,21 @@ claim("C18", "other",
       "static analysis: partial evaluation of registry functions with run-time binding rules + exact matrix/term identities",
       "DESIGN.md §5 C18")
 
+claim("C04", "proof",
+      "With mu and gamma symbolic: the collinear root function equals the field's x-acceleration on the axis; triangular "
+      "positions annihilate the field; each gamma quintic is proportional over Q(mu) to the numerator of dOmega/dx at "
+      "x_L(gamma) taken from the library's own local map, and its search range brackets a root for all mu; the position "
+      "brackets (primary and fallback, extracted by interpreting _compute_position with Brent abstracted) contain a sign "
+      "change for EVERY mu in (0,1/2], decided by exact real-root isolation of the endpoint values as rational functions "
+      "of mu (or of t with mu=3t^3), and for each of the catalogue pairs; c_n equals the axis Taylor coefficient of the "
+      "exact potential for n<=8 (12 thorough); Hessian entries (1+2c2,1-c2,-c2) and the characteristic polynomial; the "
+      "closed-form normal-form matrix is symplectic and diagonalises H2 (57 obligations by Groebner reduction modulo the "
+      "five defining relations).",
+      "Trusted: Brent converges inside a valid bracket; sympy root isolation/Groebner; Legendre generating function; H2 "
+      "reference formula. Not decided: numerical eigenvalue sorting in _compute_linear_modes; triangular normal form.",
+      "static analysis: partial evaluation + exact algebra (root isolation, Groebner reduction)",
+      "DESIGN.md §5 C04")
+
 PENDING = ["C02", "C03", "C04", "C05", "C06", "C07", "C08", "C09", "C10", "C11", "C12", "C13", "C14", "C15",
            "C16", "C17", "C18", "C19", "C20"]
 
